@@ -275,11 +275,14 @@ def rule_H4(ctx, R):
                 if not (v[0] == "agg" and v[1] == "adt" and v[2] in R.lock_adts and v[2] in ctx.F.adts):
                     break
                 flds = ctx.F.adts[v[2]]["variants"][0]["fields"]
-                carrying = [i for i, fd in enumerate(flds) if i < len(v[4]) and any(x["k"] == "param" for x in ty_walk(fd["ty"]))]
+                carrying = [i for i, fd in enumerate(flds) if i < len(v[4]) and any(x["k"] == "param" for x in ty_walk(fd["ty"]))
+                            and v[4][i][0] != "const" and not (v[4][i][0] == "op" and v[4][i][2] and v[4][i][2][0] == "constant")]
                 if len(carrying) != 1 or (v[4][carrying[0]][0] == "ref" and v[4][carrying[0]][1][0] == "O" and
                                           not v[4][carrying[0]][1][1].startswith("a")):
                     break
                 v = v[4][carrying[0]]
+                while v[0] == "agg" and v[1] == "adt" and v[2] == "std::cell::UnsafeCell" and len(v[4]) == 1:
+                    v = v[4][0]
             if v[0] == "agg" and v[1] == "adt" and v[2] in R.lock_adts and v[4] and v[4][0][0] == "ref" and v[4][0][1][0] == "O":
                 # ... or re-boxed (`Boxed { data: leak(Box::new(self.data)), locks }`): judged by what went into the new box
                 cell = v[4][0][1][1]
